@@ -20,8 +20,8 @@ const (
 )
 
 var knownOpen = map[string]bool{
-	sigRestoreInt64:   true,
-	sigPrunedLivelock: true,
+	sigRestoreInt64:   false, // repaired by a "fix:" commit in /repo, see /verif/known_findings.json
+	sigPrunedLivelock: false, // repaired by a "fix:" commit in /repo, see /verif/known_findings.json
 }
 
 // VERIF_P15_IGNORE_KNOWN=all | <sig>[,<sig>...] switches the listed exclusions off (used to confirm
